@@ -294,6 +294,7 @@ def run(prog, ctx):
     if len(jc) != 1:
         ctx.fail("O6", "join_same_entries() is called", rf.where, "%d calls" % len(jc), key="join-call")
     else:
+        o7c(prog, ctx)
         o8(prog, ctx)
         o8b(prog, ctx)
         o9(prog, ctx)
@@ -387,6 +388,24 @@ def o8b(prog, ctx):
     must record it whenever it accepts a line (= C17.P4)."""
     from rules import C17 as _C17
     _C17.success_records_line(prog, ctx, "O8")
+
+
+def o7c(prog, ctx):
+    """O7c: the join handles every definition a file can contain - also a first definition without a value (`key` with no delimiter, or
+    `key=` with nothing behind it: the stored value is NULL): no NULL reaches a string routine in the join pass (= C04.S1 for it)."""
+    from sa import nulls as _nulls
+    if not prog.has_fn("join_same_entries"):
+        return
+    jf = prog.fn("join_same_entries")
+    nf, uses = _nulls.analyse(prog, [jf])
+    bad = [u for u in uses if not u.guarded]
+    if bad:
+        u = bad[0]
+        ctx.fail("O7", "the join pass handles definitions without a value", u.node.where,
+                 "`%s` may be NULL (a key that was first defined without a value) and reaches %s: the join of such a key crashes instead of "
+                 "concatenating its later definitions" % (u.access if u.via is None else "%s (= %s)" % (u.via, u.access), u.sink), key="join-null:%s" % u.key)
+    else:
+        ctx.ok("O7", "the join pass handles definitions without a value", jf.where, "%d uses of nullable fields, all behind a NULL test" % len(uses))
 
 
 def o9(prog, ctx):
